@@ -7,7 +7,10 @@ IMPL_MODULE = "props.c20_impl"
 HASHSEEDS = {"quick": [0, 1], "thorough": [0, 1, 2, 3]}
 CASE_TIMEOUT = 20
 RULE = ("algebra: random filter expressions (operators &, |, -, and the n-ary constructors, depth <= 5) over "
-        "3-5 stub filters, each evaluated on 8 objects with random stub answers; non-trivial = expression of "
+        "2-5 base filters (stubs, and in 40% of the cases real DFTAFilter objects of either polarity and real LocalStatelessFilter "
+        "objects that all carry a rule for the same head), each evaluated on 8 objects with random base answers; the answers of the "
+        "object of EVERY sub-expression are asked again after the whole expression was built (composition must not change its "
+        "operands); non-trivial = expression of "
         "depth >= 2 whose answers are not constant.  obseq: 12-40 random well-typed programs (with repetitions) of "
         "the fixed semantic DSL presented to one ObsEqFilter with 1-3 reference inputs and a random set of "
         "skippable exceptions; non-trivial = at least one acceptance and one rejection.")
@@ -38,7 +41,7 @@ def gen(rng, tier):
         c = {"kind": "algebra", "data": [e, envs]}
         if rng.random() < 0.4:
             # some base filters are real DFTAFilter objects (either polarity) over leaf programs
-            c["bases"] = [rng.choice([["stub"], ["dfta", 1], ["dfta", 0]]) for _ in range(nbase)]
+            c["bases"] = [rng.choice([["stub"], ["dfta", 1], ["dfta", 0], ["local"], ["local"]]) for _ in range(nbase)]
         cases.append(c)
     for _ in range(n_obs):
         var_types = rng.choice([[S.INT], [S.INT, S.INT], [S.LIST(S.INT)], [S.LIST(S.INT), S.INT], [S.INT, S.BOOL]])
@@ -77,8 +80,35 @@ def model_obs(case, raw):
     return raw
 
 
+def subexprs(e):
+    """children first, left to right, then the node (the order in which c20_impl.build records objects)"""
+    out = []
+    if e[0] != 0:
+        for x in e[1:]:
+            out += subexprs(x)
+    out.append(e)
+    return out
+
+
+_NODES = {}
+
+
+def node_answers(case):
+    from lib import core
+    k = core.digest(case)
+    if k not in _NODES:
+        e, envs = case["data"]
+        _NODES[k] = core.run_model(ID, [(1, [x, envs]) for x in subexprs(e)])
+    return _NODES[k]
+
+
 def agree(case, impl_obs, model_obs):
-    return impl_obs == model_obs
+    if case["kind"] != "algebra":
+        return impl_obs == model_obs
+    if not isinstance(impl_obs, dict) or impl_obs.get("root") != model_obs:
+        return False
+    # every sub-expression's object, asked after the whole expression was built, still denotes the sub-expression
+    return impl_obs.get("nodes") == node_answers(case)
 
 
 def expr_depth(e):
